@@ -627,7 +627,9 @@ func genInt(t *rapid.T) int64 {
 }
 
 var invalidUTF8 = []string{"\xff", "a\xc3", "\xc0\xaf", "\xed\xa0\x80", "ab\x80cd", "\xf8\x88\x80\x80\x80", "\xf4\x90\x80\x80", "\xe2\x82"}
-var runes = []rune{'a', 'b', 'z', '0', ' ', 'é', 'ß', '€', '語', '😀', 0x10ffff, 0x7f, 0x80}
+// runes: every UTF-8 length class and the code points at its edges, the replacement character
+// U+FFFD (valid text, but what decoders substitute for errors), non-characters, NUL, BOM
+var runes = []rune{'a', 'b', 'z', '0', ' ', 'é', 'ß', '€', '語', '😀', 0x10ffff, 0x7f, 0x80, 0x00, 0x7ff, 0x800, 0xd7ff, 0xe000, 0xfffd, 0xfffd, 0xfffe, 0xffff, 0x10000, 0xfeff, 0x85, 0x2028}
 
 func genBytes(t *rapid.T, text bool, ctx *genCtx, chance int) []byte {
 	if text && ctx.allowInvalid && rapid.IntRange(0, chance).Draw(t, "bad") == 0 {
